@@ -277,7 +277,9 @@ AsciiFails(e) ==
 
 \* ---------------------------------------------------------------- machine
 Fails(e) ==
-  CASE e.op = "begin"   -> {}
+  \* a shipped k-mer type is as wide as its name says (Kmer30 is a string of 30 letters): the history of a type that
+  \* reports another width is rejected at its first event
+  CASE e.op = "begin"   -> IF e.dom = "kmer" /\ e.K # e.Knom THEN {"K0"} ELSE {}
     [] e.op = "kop"     -> KopFails(e)
     [] e.op = "kpool"   -> KpoolFails(e)
     [] e.op = "sop"     -> SopFails(e)
